@@ -33,6 +33,7 @@ type c08Conn struct {
 	StallAt int      `json:"stall_at"` // stall before sending byte StallAt of header+payload (-1: none)
 	StallMs int      `json:"stall_ms"` // stall duration; 0 with StallAt>=0 means "forever"
 	Callers []string `json:"callers"`  // concurrent application calls started before any byte arrives
+	Late    int      `json:"late"`     // further callers that ask for an address at the moment a byte on a side channel reaches them
 }
 
 type c08Case struct {
@@ -175,6 +176,15 @@ func genC08Header(t *tape.Tape) (hdr []byte, class, src, dst, desc string) {
 			[]byte("PROXY"),
 		}
 		i := t.Intn(len(xs))
+		if t.Chance(1, 3) {
+			// a malformed header followed by a perfectly good one: the connection has failed all the same, and the
+			// second header (or its addresses) must never become visible through a later call
+			good := []byte("PROXY TCP4 6.6.6.6 7.7.7.7 666 777\r\n")
+			if t.Chance(1, 2) {
+				good = append(append(append([]byte{}, v2sig...), 0x21, 0x11, 0x00, 0x0c), 6, 6, 6, 6, 7, 7, 7, 7, 0x02, 0x9a, 0x03, 0x09)
+			}
+			return append(append([]byte{}, xs[i]...), good...), "reject", "", "", fmt.Sprintf("malformed-%d-then-valid", i)
+		}
 		return xs[i], "reject", "", "", fmt.Sprintf("malformed-%d", i)
 	}
 }
@@ -256,6 +266,9 @@ func genC08(t *tape.Tape, tier string) any {
 		for j := 0; j < k; j++ {
 			cn.Callers = append(cn.Callers, []string{"read", "remote", "local", "header", "write"}[t.Pick(4, 3, 2, 2, 1)])
 		}
+		if t.Chance(1, 3) {
+			cn.Late = 1 + t.Intn(2)
+		}
 		if c.Full {
 			cn.Callers = nil
 			cn.Payload = 0
@@ -297,6 +310,14 @@ func runC08(env *core.Env, ci any) {
 		panic(err)
 	}
 	timeout := time.Duration(c.TimeoutMs) * time.Millisecond
+	ctls := make([]*simnet.Listener, 2*len(c.Conns))
+	for k := range ctls {
+		l, err := n.Listen("server", fmt.Sprintf("%s:%d", ipTarget, 9500+k))
+		if err != nil {
+			panic(err)
+		}
+		ctls[k] = l
+	}
 	rec := &recListener{Listener: inner}
 	l := &proxyproto.Listener{Listener: rec, ReadHeaderTimeout: timeout}
 	type accepted struct {
@@ -372,6 +393,33 @@ func runC08(env *core.Env, ci any) {
 						call.doneAt = env.Sched.Elapsed()
 					}()
 				}
+				// late callers: each is released by a byte on its own side connection; the delivery of that byte is an
+				// ordinary network event, so the scheduler can place it in the same step as the header's last bytes
+				for j := 0; j < cn.Late; j++ {
+					call := &c08Call{what: []string{"remote-late", "local-late"}[j%2]}
+					a.calls = append(a.calls, call)
+					ctl := ctls[idx*2+j]
+					cw.Add(1)
+					go func() {
+						defer cw.Done()
+						cc, err := ctl.Accept()
+						if err != nil {
+							return
+						}
+						defer cc.Close()
+						one := make([]byte, 1)
+						if _, err := cc.Read(one); err != nil {
+							return
+						}
+						if strings.HasPrefix(call.what, "remote") {
+							call.addr = conn.RemoteAddr()
+						} else {
+							call.addr = conn.LocalAddr()
+						}
+						call.isNil = call.addr == nil || isNilAddr(call.addr)
+						call.doneAt = env.Sched.Elapsed()
+					}()
+				}
 				// the reader
 				buf := make([]byte, 4096)
 				for {
@@ -408,9 +456,24 @@ func runC08(env *core.Env, ci any) {
 			}
 			sentAt[i] = env.Sched.Elapsed()
 			all := append(append([]byte{}, cn.Header...), streamBytes(uint64(i)+77, 0, cn.Payload)...)
+			poked := false
+			poke := func() {
+				if poked {
+					return
+				}
+				poked = true
+				for j := 0; j < cn.Late; j++ {
+					if cc, err := n.Dial(context.Background(), fmt.Sprintf("client%d", i), fmt.Sprintf("%s:%d", ipTarget, 9500+i*2+j)); err == nil {
+						cc.Write([]byte{1})
+						defer cc.Close()
+					}
+				}
+			}
+			defer poke() // at the latest when the peer is done; normally right after its bytes are on their way
 			if cn.StallAt >= 0 {
 				conn.Write(all[:cn.StallAt])
 				if cn.StallMs == 0 {
+					poke()
 					// forever: wait until the server gives up, then go away
 					buf := make([]byte, 64)
 					conn.SetReadDeadline(time.Now().Add(2 * time.Hour))
@@ -427,6 +490,7 @@ func runC08(env *core.Env, ci any) {
 			} else {
 				conn.Write(all)
 			}
+			poke()
 			if cw, ok := conn.(interface{ CloseWrite() error }); ok {
 				cw.CloseWrite()
 			}
